@@ -711,6 +711,46 @@ def check_siblings(ctx, n):
     init = A.assemble_text("ORIGIN PUSH1 0x01 AND PUSH @a JUMPI PUSH0 PUSH0 REVERT a: INVALID")
     caller = (f"PUSH{len(init)} 0x{init.hex()} PUSH0 MSTORE PUSH1 {len(init)} PUSH1 {32 - len(init)} PUSH0 CREATE POP " + bump)
     scns.insert(0, Scenario({MAIN: A.assemble_text(caller)}, nargs=1, name="failing-callee:CREATE:2-paths"))
+    # directed family: prank state across forks. Every path returns (tag of the side it took, msg.sender its observer call saw);
+    # the expected pairs are fixed by the program, i.e. what each path observes when it is the only one explored.
+    P = 0xBEEF01
+    OBS, FORKER = 0x2000, 0x3000
+    obs_code = A.assemble_text("CALLER PUSH0 MSTORE PUSH1 0x20 PUSH0 RETURN")
+    forker_code = A.assemble_text("PUSH0 CALLDATALOAD PUSH @a JUMPI PUSH1 0x01 PUSH0 MSTORE PUSH1 0x20 PUSH0 RETURN "
+                                  "a: PUSH1 0x02 PUSH0 MSTORE PUSH1 0x20 PUSH0 RETURN")
+    cheat = lambda sig, args=(): A.cheat_call(A.HEVM_ADDRESS, A.selector(sig), [list(a) for a in args])  # noqa: E731
+    observe = [("push", 32), ("push", 0x20), ("push", 0), ("push", 0), ("push", 0), ("push", OBS), "GAS", "CALL", "POP"]  # -> mem[0x20]
+    ret = lambda tag: [("push", tag), ("push", 0), "MSTORE", ("push", 0x40), ("push", 0), "RETURN"]  # noqa: E731
+    arg0 = A.calldata_arg(0)
+    prank_progs = {}
+    # (a) startPrank active at a symbolic fork; the side explored first stops it / consumes a one-shot prank
+    prank_progs["startPrank-then-fork:stop-on-fallthrough"] = (
+        cheat("startPrank(address)", [[("push", P)]]) + A.if_then(arg0, observe + ret(2), cheat("stopPrank()") + observe + ret(1)),
+        {1: MAIN, 2: P})
+    prank_progs["startPrank-then-fork:stop-on-taken"] = (
+        cheat("startPrank(address)", [[("push", P)]]) + A.if_then(arg0, cheat("stopPrank()") + observe + ret(2), observe + ret(1)),
+        {1: P, 2: MAIN})
+    prank_progs["prank-then-fork:both-call"] = (
+        cheat("prank(address)", [[("push", P)]]) + A.if_then(arg0, observe + ret(2), observe + ret(1)), {1: P, 2: P})
+    # (b) a callee forks; one returning path leaves a prank pending, the other one then calls
+    call_forker = arg0 + [("push", 0), "MSTORE", ("push", 32), ("push", 0x60), ("push", 32), ("push", 0), ("push", 0),
+                          ("push", FORKER), "GAS", "CALL", "POP"]
+    for side in (1, 2):
+        other = 3 - side
+        prank_progs[f"callee-forks:prank-pending-on-return-{side}"] = (
+            call_forker + A.if_then(A.eq_const([("push", 0x60), "MLOAD"], side),
+                                    cheat("prank(address)", [[("push", P)]]) + [("push", 0), ("push", 0x20), "MSTORE"] + ret(side),
+                                    observe + ret(other)),
+            {side: 0, other: MAIN})
+        prank_progs[f"callee-forks:startPrank-on-return-{side}"] = (
+            call_forker + A.if_then(A.eq_const([("push", 0x60), "MLOAD"], side),
+                                    cheat("startPrank(address)", [[("push", P)]]) + observe + ret(side),
+                                    observe + ret(other)),
+            {side: P, other: MAIN})
+    prank_expect = {}
+    for nm, (items, expect) in prank_progs.items():
+        scns.insert(0, Scenario({MAIN: A.assemble(items), OBS: obs_code, FORKER: forker_code}, nargs=1, name="prank:" + nm))
+        prank_expect["prank:" + nm] = expect
     total_wait = 0
     for k, scn in enumerate(scns):
         hits = []
@@ -724,6 +764,23 @@ def check_siblings(ctx, n):
         ctx.count("sibling:programs")
         ctx.count("sibling:waiting-states-checked", len(hits))
         ctx.count("sibling:paths", len(sr.paths))
+        if (scn.name or "") in prank_expect:
+            ctx.count("sibling:directed-prank-paths", len(sr.paths))
+            if len(sr.paths) != 2 or sr.escaped:
+                raise RuntimeError(f"directed program {scn.name}: {len(sr.paths)} paths {[p.kind for p in sr.paths]}, escaped={sr.escaped}")
+            for pth in sr.paths:
+                data = pth.data.unwrap() if pth.data is not None and len(pth.data) else b""
+                tag = int.from_bytes(data[:32], "big") if isinstance(data, bytes) and len(data) == 64 else None
+                seen = int.from_bytes(data[32:], "big") if tag is not None else None
+                want = prank_expect[scn.name].get(tag)
+                if pth.kind != "success" or tag is None or seen != want:
+                    ctx.violation(
+                        f"prank-state-shared-across-fork|{scn.name.split(':', 1)[1].rsplit('-', 1)[0] if 'return' in scn.name else scn.name.split(':', 1)[1]}",
+                        f"program {scn.name}: the path of side {tag} ended as {pth.kind} and its observer saw msg.sender = "
+                        f"{hex(seen) if seen is not None else None}, expected {hex(want) if want is not None else None} "
+                        f"(main contract {MAIN:#x}, pranked address {P:#x}): the prank state of one path leaked into its sibling",
+                        {"kind": "sibling", "code": {hex(a): c.hex() for a, c in scn.contracts.items()}, "nargs": scn.nargs,
+                         "static": scn.static, "prank": scn.name})
         if (scn.name or "").startswith("failing-callee"):
             ctx.count("sibling:directed-failing-callee-paths", len(sr.paths))
             if len(sr.paths) < 2 or sr.escaped:
